@@ -474,6 +474,8 @@ func TestVerifC18(t *testing.T) {
 		{BackOff: 0, Max: time.Hour}, {BackOff: -5, Max: 2 * time.Hour}, {BackOff: time.Hour, Max: -1},
 		{BackOff: math.MaxInt64, Max: 3}, {BackOff: 1 << 62, Max: time.Microsecond, KeepErrs: 2}, {BackOff: 3, Max: math.MaxInt64},
 		{BackOff: time.Hour, Max: time.Hour - 1}, {BackOff: time.Hour, Max: time.Hour + 1}, {BackOff: 2, Max: 1},
+		// a base far above a small maximum: the pause is the maximum, never the base
+		{BackOff: time.Hour, Max: 10 * time.Microsecond}, {BackOff: 2 * time.Hour, Max: 5 * time.Microsecond, KeepErrs: 3},
 	}
 	for _, p := range probes {
 		for _, r := range []int{Forever, 1, 2, 3, 5, 7} {
@@ -481,6 +483,12 @@ func TestVerifC18(t *testing.T) {
 				cases = append(cases, c18case{cfg: p, retries: r, outs: s, ctx: "h", trials: 1, probe: 30 * time.Minute})
 			}
 		}
+	}
+
+	// 2g. finite counts beyond the 63 re-runs after which the pause stops growing: the count still ends the retries
+	for _, r := range []int{63, 64, 65, 100} {
+		cases = append(cases, c18case{cfg: ExpBackOff{BackOff: 1, Max: 1}, retries: r, outs: strings.Repeat("r", r+6), ctx: "-", trials: 1})
+		cases = append(cases, c18case{cfg: ExpBackOff{BackOff: 1, Max: 2, Jitter: true, KeepErrs: 4}, retries: r, outs: strings.Repeat("r", r-2) + "o", ctx: "-", trials: 1})
 	}
 
 	// run them on a pool of workers; results are written in case order
